@@ -202,6 +202,30 @@ func (m *monitor) fragment(tb *bo.TableBox, spec *tableSpec, cb float64, cbKnown
 		}
 		res.Count("columns", int64(n))
 		res.Count("eq_columns_fill", 1)
+		// evidence for the "every column constrained" family (constrained.go): automatic layout,
+		// px table width, every column with a px width of its own and no percentage anywhere.
+		// "surplus": the width to assign to the columns provably exceeds the sum of their
+		// max-content widths (so the distribution of a surplus that no column may absorb by the
+		// regular rules was exercised);
+		// "empty_origin": at least one of the columns has no originating cell.
+		if !fixed && spec.WKind == "px" && n == ref.NCols {
+			if all, declared := allPxConstrained(spec, ref, n); all {
+				res.Count("fragments_all_constrained", 1)
+				// upper bound of the sum of the columns' max-content widths, from the description
+				bound, known := maxContentUpper(spec, ref, declared)
+				surplus := known && tw-float64(n+1)*sx > bound+0.05
+				empty := emptyOriginColumns(ref, n) > 0
+				if surplus {
+					res.Count("all_constrained_surplus", 1)
+				}
+				if empty {
+					res.Count("all_constrained_empty_origin", 1)
+				}
+				if surplus && empty {
+					res.Count("all_constrained_surplus_empty_origin", 1)
+				}
+			}
+		}
 	}
 
 	// ---- specified width ----------------------------------------------------------------
